@@ -27,7 +27,20 @@ func malformOrigin(t *rapid.T, o string) Val {
 		// the same address spelled differently: not the listed origin (hosts are compared byte for byte)
 		return V(sch + "://" + respellIP(t, ip) + orStr2(port))
 	}
-	switch uniform(t, "malform", 45) {
+	if len(host) <= 56 && !strings.HasPrefix(host, "[") && chance(t, "padded", 6) {
+		// the listed host as the tail or the head of a very long one (padding lengths and total lengths around 2^8)
+		k := pick(t, "padlen", []int{256, 256, 255, 257, 128, 250})
+		if chance(t, "padtotal", 40) {
+			k -= len(host)
+		}
+		if chance(t, "padafter", 50) && !strings.HasSuffix(host, ".") {
+			return V(sch + "://" + host + padLabelsAfter(k) + orStr2(port))
+		}
+		return V(sch + "://" + padLabels(k) + host + orStr2(port))
+	}
+	switch uniform(t, "malform", 49) {
+	case 45, 46, 47, 48:
+		return V(hostileByteOrigin(t, o))
 	case 42, 43, 44:
 		// one ASCII letter replaced by a non-ASCII letter that Unicode case mapping/folding sends back to it
 		if u, ok := unifold(t, o); ok {
@@ -120,6 +133,38 @@ func malformOrigin(t *rapid.T, o string) Val {
 	default:
 		return V(sch + "://" + strings.ToUpper(host[:1]) + host[1:] + orStr2(port))
 	}
+}
+
+// hostileByteOrigin puts a byte that no host may contain (mostly >= 0x80) where the first byte of the host is, or in
+// front of it - inside brackets (whose content the request-side parser takes as it comes) or not. Such an origin
+// shares all but its first host byte with a listed one, so a lookup gets as far as the place where listed hosts
+// branch out and meets the odd byte there.
+func hostileByteOrigin(t *rapid.T, o string) string {
+	sch, rest, _ := strings.Cut(o, "://")
+	host, port := rest, ""
+	if i := strings.LastIndexByte(rest, ':'); i >= 0 && !strings.HasSuffix(rest, "]") {
+		host, port = rest[:i], rest[i+1:]
+	}
+	host = strings.TrimSuffix(strings.TrimPrefix(host, "["), "]")
+	if host == "" {
+		host = "a"
+	}
+	hb := string([]byte{pick(t, "hostilebyte", []byte{0x80, 0xff, 0xff, 0xe9, 0x7f, 0x00, 0xc3, 0xfe, 0x81, 0xbf, '[', ']', '*', byte(128 + uniform(t, "hostilehigh", 128))})})
+	var h string
+	switch uniform(t, "hostilepos", 4) {
+	case 0:
+		h = hb + host[1:]
+	case 1:
+		h = hb + host
+	case 2:
+		h = hb + "." + host
+	default:
+		h = host[:len(host)-1] + hb
+	}
+	if chance(t, "hostilebracket", 70) {
+		h = "[" + h + "]"
+	}
+	return sch + "://" + h + orStr2(port)
 }
 
 // respellIP returns another textual form of the same IP address (or of the address it embeds / is embedded in).
